@@ -26,6 +26,9 @@ func (p *NegotiationParams) Marshal() ([]byte, error) {
 	lenbuf := make([]byte, 2)
 
 	for k, v := range keyvals {
+		if len(k) > 0xffff || len(v) > 0xffff {
+			return nil, errors.Errorf("negotiation parameter %q does not fit the 16-bit length prefix", k)
+		}
 		binary.BigEndian.PutUint16(lenbuf, uint16(len(k)))
 		res = append(res, lenbuf...)
 		res = append(res, []byte(k)...)
